@@ -53,6 +53,15 @@ def g_down(rng, n, p):
 
 
 GROUPS, NAMES, IDS = ("g0", "g1"), ("p0", "p1"), ("x", "y")
+# hostile ids: the separator of entities / Merkle leaf names / document ids ('/') anywhere and repeated, the
+# delimiter of series keys ('|'), blanks, '=', unicode, a revision-like tail, long
+HOSTILE_IDS = ["svc/instance-1", "a/b/c", "/x", "x/", "a//b", "/", "//", "x/20", "p0/x", "g0/p0/x", "a|b", "a\\|b", "x y", "k=v;w+z",
+               "ключ/値", "é", "x" * 180 + "/" + "y" * 40, "~", "%2F", "x/\u0000y".encode().decode("unicode_escape")]
+
+
+def id_token(i):
+    """ids that are not plain [a-z0-9]+ travel hex-encoded ("~<hex>")"""
+    return i if re.fullmatch(r"[a-z0-9]+", i) else "~" + i.encode("utf-8").hex()
 
 
 def key_name(k):
@@ -63,7 +72,11 @@ def key_name(k):
 def g_keys(rng, nk):
     """keys are triples group/name/id; ids are deliberately shared across names and groups, names across groups
     (one shard per group holds every name of the group)"""
-    first = (rng.choice(GROUPS), rng.choice(NAMES), rng.choice(IDS))
+    ids = list(IDS)
+    if rng.random() < 0.5:
+        # half of the histories use hostile ids (shared the same way)
+        ids = [rng.choice(HOSTILE_IDS), rng.choice(HOSTILE_IDS + list(IDS))]
+    first = (rng.choice(GROUPS), rng.choice(NAMES), rng.choice(ids))
     keys = [first]
     tries = 0
     while len(keys) < nk and tries < 50:
@@ -74,12 +87,20 @@ def g_keys(rng, nk):
         elif r < 0.7:     # other group, same name and id
             k = (rng.choice(GROUPS), first[1], first[2])
         elif r < 0.85:    # same group and name, other id
-            k = (first[0], first[1], rng.choice(IDS))
+            k = (first[0], first[1], rng.choice(ids))
         else:
-            k = (rng.choice(GROUPS), rng.choice(NAMES), rng.choice(IDS))
+            k = (rng.choice(GROUPS), rng.choice(NAMES), rng.choice(ids))
         if k not in keys:
             keys.append(k)
-    return ["/".join(k) for k in keys]
+    return ["%s/%s/%s" % (k[0], k[1], id_token(k[2])) for k in keys]
+
+
+def g_leaf(rng):
+    """LE: Merkle leaf name round trip; group and name without the separator, any id"""
+    def hx(b):
+        return b.hex() if b else "-"
+    i = rng.choice(HOSTILE_IDS + list(IDS)) if rng.random() < 0.7 else "".join(rng.choice("ab/|") for _ in range(rng.randint(0, 6)))
+    return "LE %s %s %s" % (hx(rng.choice(GROUPS).encode()), hx(rng.choice(NAMES + ("name_1", "n")).encode()), hx(i.encode("utf-8")))
 
 
 MAX_APPLIES_PER_KEY = 10   # shard.repair's sort.Sort is stable (insertion sort) only up to 12 documents of one key
@@ -342,6 +363,8 @@ class C18(vlib.Spec):
                 out.append(g_history(rng, kind))
         for _ in range(1 if n < 20000 else 4):
             out.append(g_history(rng, "Hbig"))
+        for _ in range(max(20, n // 100)):
+            out.append(g_leaf(rng))
         while len(out) < n:
             out.append(g_dedup(rng))
         return out
@@ -351,6 +374,8 @@ class C18(vlib.Spec):
         return line.split(" ", 1)[0]
 
     def nontrivial(self, line, g):
+        if line.startswith("LE"):
+            return line
         if line.startswith("DD"):
             return line if ";" in line else None
         return line if re.search(r"\| [ATDRG] ", line) else None
@@ -402,7 +427,12 @@ class C18(vlib.Spec):
         if g.startswith("PANIC") or g.startswith("CRASH") or g == "bad-op":
             return ("violation", "implementation crashed / rejected the case: " + g[:200])
         try:
-            if line.startswith("DD"):
+            if line.startswith("LE"):
+                f = line.split()
+                if g.split() != [("%s2f%s2f%s" % tuple(x if x != "-" else "" for x in f[1:4])), f[1], f[2], f[3]]:
+                    raise Violation("Merkle leaf name does not parse back: %s -> %s" % (line, g))
+                self.note("leaf name with separator in the id" if "2f" in f[3] else "leaf name, plain id")
+            elif line.startswith("DD"):
                 self.oracle_dd(line, g)
             else:
                 self.oracle_history(line, g)
@@ -760,7 +790,7 @@ class C18(vlib.Spec):
 
     # ------------------------------------------------------------------------------------------------------
     def shrink(self, line, still_fails):
-        if line.startswith("DD") or line.startswith("HF"):
+        if line.startswith("DD") or line.startswith("HF") or line.startswith("LE"):
             return line
         f = line.split(" | ")
         head, ops = f[0], f[1:]
@@ -798,6 +828,7 @@ SPEC.theorems = ["Banyan.C18." + t for t in [
     "dedup_spec", "dedup_spec_sorted", "dedup_spec_sorted_good",
     "repairLegacy_resurrects", "repairLegacy_not_commutative", "dup_and_lookup_limit_lose_a_delete",
     "simpleDedupLegacy_order_dependent",
+    "leafEntity_roundtrip", "leafEntity_injective", "leafEntity_splitAll_fails", "leafEntity_ambiguous_name",
 ]] + ["Banyan.Tie.C18." + t for t in [
     "gossip_limit_tie", "repair_limit_tie", "query_limit_tie", "repair_tiebreak_tie", "repair_skip_tie", "liaison_order_tie",
-    "delete_lookup_tie", "doc_id_tie"]]
+    "delete_lookup_tie", "leaf_sep_tie", "leaf_parts_tie", "doc_id_tie"]]
